@@ -1044,6 +1044,28 @@ impl NotificationProtocol {
                     )
                     .await;
             }
+            // an inbound substream of the peer is being received/validated and the local node has
+            // no outbound substream of its own in progress: the request is not going to be served
+            // (if the inbound substream dies nothing would ever be reported for it), so it is
+            // rejected the same way as for `ValidationPending` instead of being dropped silently
+            PeerState::Validating {
+                outbound: OutboundState::Closed,
+                ..
+            } => {
+                tracing::trace!(
+                    target: LOG_TARGET,
+                    ?peer,
+                    protocol = %self.protocol,
+                    "inbound substream under validation, rejecting outbound substream request",
+                );
+
+                self.event_handle
+                    .report_notification_stream_open_failure(
+                        peer,
+                        NotificationError::ValidationPending,
+                    )
+                    .await;
+            }
             _ => {}
         }
 
